@@ -24,47 +24,20 @@ Proof.
     rewrite IH. now rewrite <- app_assoc.
 Qed.
 
-Lemma NoDup_app_snoc : forall {A : Type} (l : list A) x, NoDup l -> ~ In x l -> NoDup (l ++ [x]).
+(** * [FGG.from_hrg] on a grammar whose rules only use registered labels: the copied label table
+    is left as it is *)
+Lemma add_edge_label_same : forall T l, NoDup (map el_name T) -> In l T -> add_edge_label T l = Ok T.
 Proof.
-  intros A l x Hnd Hx. induction Hnd as [|y l Hy Hnd IH]; cbn; [constructor; [intros []|constructor]|].
-  constructor.
-  - intro Hin. apply in_app_or in Hin as [Hin|[<-|[]]]; [contradiction|]. apply Hx. now left.
-  - apply IH. intro Hin. apply Hx. now right.
+  intros T l HT Hl. unfold add_edge_label. rewrite (lab_get_in T l HT Hl), elabel_eqb_refl.
+  now rewrite (lab_set_same T l HT Hl).
 Qed.
 
-(** * [FGG.from_hrg] on a grammar whose labels all come from one table *)
-Lemma add_edge_label_in : forall T tbl l,
-  NoDup (map el_name T) -> NoDup (map el_name tbl) -> (forall x, In x tbl -> In x T) -> In l T ->
-  exists tbl', add_edge_label tbl l = Ok tbl' /\ NoDup (map el_name tbl') /\
-               (forall x, In x tbl' <-> In x tbl \/ x = l).
+Lemma add_edge_labels_same : forall T ls, NoDup (map el_name T) -> (forall l, In l ls -> In l T) ->
+  add_edge_labels T ls = Ok T.
 Proof.
-  intros T tbl l HT Htbl Hsub Hl. unfold add_edge_label.
-  destruct (lab_get tbl (el_name l)) as [l'|] eqn:E.
-  - apply lab_get_some in E as [Hin Hname].
-    assert (l' = l) as -> by (apply (nodup_names_inj T); auto).
-    rewrite elabel_eqb_refl. rewrite (lab_set_same tbl l Htbl Hin). exists tbl. repeat split; auto.
-    + intros [H| ->]; assumption.
-  - apply lab_get_none in E. rewrite (lab_set_fresh tbl l E). exists (tbl ++ [l]). repeat split.
-    + rewrite map_app. cbn. apply NoDup_app_snoc; assumption.
-    + intro H. apply in_app_or in H as [H|[<-|[]]]; auto.
-    + intros [H| ->]; apply in_or_app; [now left|right; now left].
-Qed.
-
-Lemma add_edge_labels_in : forall T ls tbl,
-  NoDup (map el_name T) -> NoDup (map el_name tbl) -> (forall x, In x tbl -> In x T) ->
-  (forall l, In l ls -> In l T) ->
-  exists tbl', add_edge_labels tbl ls = Ok tbl' /\ NoDup (map el_name tbl') /\
-               (forall x, In x tbl' <-> In x tbl \/ In x ls).
-Proof.
-  intros T. induction ls as [|l ls IH]; intros tbl HT Htbl Hsub Hls.
-  - exists tbl. cbn. repeat split; auto. intros [H|[]]; assumption.
-  - destruct (add_edge_label_in T tbl l HT Htbl Hsub (Hls l (or_introl eq_refl))) as [t1 [E1 [N1 I1]]].
-    destruct (IH t1 HT N1) as [t2 [E2 [N2 I2]]].
-    + intros x Hx. apply I1 in Hx as [Hx| ->]; [now apply Hsub|apply Hls; now left].
-    + intros x Hx. apply Hls. now right.
-    + exists t2. cbn [add_edge_labels]. rewrite E1. cbn [bind]. repeat split; auto.
-      * intro H. apply I2 in H as [H|H]; [apply I1 in H as [H| ->]|]; cbn; auto.
-      * intros [H|[<-|H]]; apply I2; [left; apply I1; now left|left; apply I1; now right|now right].
+  intros T. induction ls as [|l ls IH]; intros HT Hls; [reflexivity|]. cbn [add_edge_labels].
+  rewrite (add_edge_label_same T l HT (Hls l (or_introl eq_refl))). cbn [bind].
+  apply IH; [assumption|]. intros x Hx. apply Hls. now right.
 Qed.
 
 Definition rule_labels (r : rule) : list elabel := r_lhs r :: map e_label (g_edges (r_rhs r)).
@@ -79,37 +52,16 @@ Definition from_hrg_go : list rule -> list elabel -> res (list elabel) :=
         go rs' t2
     end.
 
-Lemma from_hrg_labels_go : forall g, from_hrg_labels g = from_hrg_go (all_rules g) [h_start g].
+Lemma from_hrg_labels_go : forall g, from_hrg_labels g = from_hrg_go (all_rules g) (h_labels g).
 Proof. reflexivity. Qed.
 
-Lemma from_hrg_go_spec : forall T rs tbl,
-  NoDup (map el_name T) -> NoDup (map el_name tbl) -> (forall x, In x tbl -> In x T) ->
-  (forall r l, In r rs -> In l (rule_labels r) -> In l T) ->
-  exists tbl', from_hrg_go rs tbl = Ok tbl' /\ NoDup (map el_name tbl') /\
-               (forall x, In x tbl' <-> In x tbl \/ exists r, In r rs /\ In x (rule_labels r)).
+Lemma from_hrg_go_same : forall T rs, NoDup (map el_name T) ->
+  (forall r l, In r rs -> In l (rule_labels r) -> In l T) -> from_hrg_go rs T = Ok T.
 Proof.
-  intros T. induction rs as [|r rs IH]; intros tbl HT Htbl Hsub Hrs.
-  - exists tbl. cbn. repeat split; auto. intros [H|[r [[] _]]]. assumption.
-  - destruct (add_edge_label_in T tbl (r_lhs r) HT Htbl Hsub) as [t1 [E1 [N1 I1]]].
-    { apply (Hrs r); [now left|now left]. }
-    destruct (add_edge_labels_in T (map e_label (g_edges (r_rhs r))) t1 HT N1) as [t2 [E2 [N2 I2]]].
-    { intros x Hx. apply I1 in Hx as [Hx| ->]; [now apply Hsub|]. apply (Hrs r); [now left|now left]. }
-    { intros l Hl. apply (Hrs r); [now left|now right]. }
-    destruct (IH t2 HT N2) as [t3 [E3 [N3 I3]]].
-    { intros x Hx. apply I2 in Hx as [Hx|Hx].
-      - apply I1 in Hx as [Hx| ->]; [now apply Hsub|]. apply (Hrs r); [now left|now left].
-      - apply (Hrs r); [now left|now right]. }
-    { intros r0 l H0 Hl. apply (Hrs r0); [now right|assumption]. }
-    exists t3. cbn [from_hrg_go]. rewrite E1. cbn [bind]. rewrite E2. cbn [bind]. repeat split; auto.
-    + intro H. apply I3 in H as [H|[r0 [H0 Hl]]].
-      * apply I2 in H as [H|H].
-        -- apply I1 in H as [H| ->]; [now left|]. right. exists r. split; [now left|now left].
-        -- right. exists r. split; [now left|now right].
-      * right. exists r0. split; [now right|assumption].
-    + intros [H|[r0 [[<-|H0] Hl]]]; apply I3.
-      * left. apply I2. left. apply I1. now left.
-      * left. apply I2. destruct Hl as [<-|Hl]; [left; apply I1; now right|now right].
-      * right. exists r0. now split.
+  intros T. induction rs as [|r rs IH]; intros HT Hrs; [reflexivity|]. cbn [from_hrg_go].
+  rewrite (add_edge_label_same T (r_lhs r) HT); [|apply (Hrs r); now left]. cbn [bind].
+  rewrite (add_edge_labels_same T _ HT); [|intros l Hl; apply (Hrs r); [now left|now right]]. cbn [bind].
+  apply IH; [assumption|]. intros r0 l H0 Hl. apply (Hrs r0); [now right|assumption].
 Qed.
 
 (** regrouping an already grouped rule dictionary gives it back *)
@@ -124,22 +76,14 @@ Proof.
     cbn in Hk. subst k'. f_equal; [|assumption]. f_equal. cbn in Hl. clear - Hl. induction Hl; [reflexivity|]. now subst.
 Qed.
 
-Lemma from_hrg_spec : forall g T,
-  NoDup (map el_name T) -> In (h_start g) T ->
-  (forall r l, In r (all_rules g) -> In l (rule_labels r) -> In l T) ->
+Lemma from_hrg_spec : forall g,
+  NoDup (map el_name (h_labels g)) ->
+  (forall r l, In r (all_rules g) -> In l (rule_labels r) -> In l (h_labels g)) ->
   NoDup (map fst (h_rules g)) -> keys_ok (h_rules g) ->
-  exists tbl', from_hrg g = Ok (mkHRG tbl' (h_start g) (h_rules g)) /\ NoDup (map el_name tbl') /\
-               (forall x, In x tbl' <-> x = h_start g \/ exists r, In r (all_rules g) /\ In x (rule_labels r)).
+  from_hrg g = Ok g.
 Proof.
-  intros g T HT Hs Hrs Hnd Hok.
-  destruct (from_hrg_go_spec T (all_rules g) [h_start g] HT) as [tbl' [E [N I]]].
-  - cbn. constructor; [intros []|constructor].
-  - intros x [<-|[]]. exact Hs.
-  - exact Hrs.
-  - exists tbl'. unfold from_hrg. rewrite from_hrg_labels_go, E. cbn [bind].
-    unfold all_rules at 1. rewrite (regroup_id _ Hnd Hok). repeat split; auto.
-    + intro H. apply I in H as [[<-|[]]|H]; auto.
-    + intros [->|H]; apply I; [left; now left|now right].
+  intros g HT Hrs Hnd Hok. unfold from_hrg. rewrite from_hrg_labels_go, (from_hrg_go_same _ _ HT Hrs). cbn [bind].
+  unfold all_rules. rewrite (regroup_id _ Hnd Hok). now destruct g.
 Qed.
 
 (** * what an isomorphic grammar shares with the original *)
@@ -219,32 +163,22 @@ Proof.
     cbn [length] in *. now rewrite map_length.
 Qed.
 
-Definition id_spec (t : tens) (m : nat) : wspec :=
-  mkWS t [] (map (fun k => VInt (Z.of_nat k)) (seq 0 m)) (NFin 0%Q).
+Definition id_spec (t : tens) : wspec := mkWS t [] None (NFin 0%Q).
 
-Lemma vs_axis_nat : forall m k, vs_axis m (Z.of_nat k) = k.
-Proof. intros m k. unfold vs_axis. assert ((Z.of_nat k <? 0)%Z = false) as -> by (apply Z.ltb_ge; lia). apply Nat2Z.id. Qed.
-
-Lemma paxes_as_map : forall l s,
-  map (fun kn => APhys (fst kn) (snd kn)) (combine (seq s (length l)) l) =
-  map (fun k => APhys k (nth (k - s) l 0)) (seq s (length l)).
-Proof.
-  induction l as [|n l IH]; intro s; [reflexivity|]. cbn [length seq combine map fst snd].
-  rewrite Nat.sub_diag. cbn [nth]. f_equal. rewrite IH. apply map_ext_in. intros k Hk. apply in_seq in Hk.
-  replace (k - s) with (S (k - S s)) by lia. reflexivity.
-Qed.
+Lemma id_spec_pshape : forall t shape, tens_shape t = Some shape -> ws_pshape (id_spec t) = shape.
+Proof. intros t shape Hs. unfold ws_pshape, id_spec. cbn. now rewrite Hs. Qed.
 
 Lemma id_spec_pt : forall t shape, tens_shape t = Some shape ->
-  spec_pt (id_spec t (length shape)) = mkPT t 0 shape (paxes_of shape) (NFin 0%Q).
+  spec_pt (id_spec t) = mkPT t 0 shape (paxes_of shape) (NFin 0%Q).
 Proof.
-  intros t shape Hs. unfold spec_pt, id_spec, ws_pshape. cbn [ws_phys ws_expand ws_vaxes ws_default length app]. rewrite Hs.
-  f_equal. unfold paxes_of. rewrite (paxes_as_map shape 0), map_map. apply map_ext. intro k.
-  cbn [vs_to_axis]. rewrite vs_axis_nat. now rewrite Nat.sub_0_r.
+  intros t shape Hs. unfold spec_pt, ws_vaxes_eff. rewrite (id_spec_pshape t shape Hs).
+  cbn [id_spec ws_phys ws_expand ws_vaxes ws_default length]. now rewrite <- paxes_identity.
 Qed.
 
-Lemma id_spec_wf : forall t shape, tens_shape t = Some shape -> wf_wspec (id_spec t (length shape)) = true.
+Lemma id_spec_wf : forall t shape, tens_shape t = Some shape -> wf_wspec (id_spec t) = true.
 Proof.
-  intros t shape Hs. unfold wf_wspec, id_spec, ws_pshape. cbn [ws_phys ws_expand ws_vaxes app]. rewrite Hs.
+  intros t shape Hs. unfold wf_wspec, ws_vaxes_eff. rewrite (id_spec_pshape t shape Hs).
+  cbn [id_spec ws_phys ws_vaxes]. rewrite Hs.
   apply andb_true_iff. split.
   - apply forallb_forall. intros v Hv. apply in_map_iff in Hv as [k [<- Hk]]. apply in_seq in Hk. cbn [vs_in_range].
     apply andb_true_iff. split; [apply Z.leb_le|apply Z.ltb_lt]; lia.
@@ -284,12 +218,13 @@ Lemma dense_identity : forall t shape, tens_shape t = Some shape ->
              forall idx, in_bounds idx shape -> tens_get t2 idx = tens_get t idx.
 Proof.
   intros t shape Hs. pose proof (id_spec_wf t shape Hs) as Hwf. pose proof (id_spec_pt t shape Hs) as Hpt.
-  set (s := id_spec t (length shape)) in *.
+  set (s := id_spec t) in *.
   destruct (spec_pt_dense_ok s Hwf) as [t2 Ht2]. exists t2. rewrite <- Hpt. split; [exact Ht2|].
   intros idx Hidx.
   assert (pt_pshape (spec_pt s) = shape) as Hps by (rewrite Hpt; reflexivity).
   assert (evals (spec_pt s) idx = idx) as Hev.
-  { rewrite spec_pt_evals. unfold s, id_spec, ws_pshape. cbn [ws_vaxes ws_phys ws_expand app]. rewrite Hs, map_map.
+  { rewrite spec_pt_evals. unfold ws_vaxes_eff. unfold s at 1 2 3. rewrite (id_spec_pshape t shape Hs).
+    cbn [id_spec ws_vaxes]. rewrite map_map.
     transitivity (map (fun k => nth k idx 0) (seq 0 (length idx))); [|apply map_nth_seq].
     rewrite (in_bounds_length _ _ Hidx). apply map_ext. intro k.
     cbn [vs_eval]. now rewrite vs_axis_nat. }
@@ -297,7 +232,7 @@ Proof.
   { rewrite <- Hev. apply evals_in_bounds; [now apply spec_pt_scoped|now rewrite Hps]. }
   destruct (dense_spec (spec_pt s) t2 Ht2 (spec_pt_scoped s Hwf)) with (idx := idx) as [Hhit _].
   - intros p p' Hp Hp' E. rewrite !spec_pt_evals in E. rewrite Hps in Hp, Hp'.
-    assert (ws_pshape s = shape) as Hws by (unfold s, id_spec, ws_pshape; cbn; now rewrite Hs).
+    assert (ws_pshape s = shape) as Hws by (apply id_spec_pshape; exact Hs).
     rewrite <- Hws in Hp, Hp'. now rewrite (evals_injective s Hwf p p' Hp Hp' E).
   - exact Hidx'.
   - destruct (tens_get_in_bounds t shape idx Hs Hidx) as [v Hv]. rewrite Hv. apply (Hhit idx v).
@@ -409,22 +344,6 @@ Proof.
     + constructor; [|assumption]. cbn. now split.
 Qed.
 
-(** * the guard: every edge label is the start symbol, a left-hand side or the label of an edge of
-    some rule (otherwise [FGG.from_hrg] drops it: F20) *)
-Definition label_used (g : hrg) (l : elabel) : bool :=
-  elabel_eqb l (h_start g) || existsb (fun r => existsb (elabel_eqb l) (rule_labels r)) (all_rules g).
-Definition labels_used (g : hrg) : bool := forallb (label_used g) (h_labels g).
-
-Lemma label_used_spec : forall g l, label_used g l = true <->
-  l = h_start g \/ exists r, In r (all_rules g) /\ In l (rule_labels r).
-Proof.
-  intros g l. unfold label_used. rewrite orb_true_iff, elabel_eqb_eq, existsb_exists. split.
-  - intros [H|[r [Hr H]]]; [now left|]. right. exists r. split; [assumption|].
-    apply existsb_exists in H as [x [Hx E]]. apply elabel_eqb_eq in E. now subst.
-  - intros [H|[r [Hr H]]]; [now left|]. right. exists r. split; [assumption|].
-    apply existsb_exists. exists l. split; [assumption|apply elabel_eqb_refl].
-Qed.
-
 Lemma json_to_fgg_step : forall c jg itd itf,
   json_to_fgg_model c (JDict [(k_grammar, jg);
                               (k_interpretation, JDict [(k_domains, JDict itd); (k_factors, JDict itf)])]) =
@@ -437,7 +356,7 @@ Proof. reflexivity. Qed.
 
 (** * the FGG round trip *)
 Theorem fgg_roundtrip : forall (dec : nat -> str) (g : fgg) (c : nat),
-  wf_hrg (f_hrg g) = true -> labels_used (f_hrg g) = true ->
+  wf_hrg (f_hrg g) = true ->
   Forall (factor_wf (h_labels (f_hrg g)) (f_domains g)) (f_factors g) ->
   exists j g',
     fgg_to_json_model dec g = Ok j /\ json_to_fgg_model c j = Ok g' /\
@@ -445,7 +364,7 @@ Theorem fgg_roundtrip : forall (dec : nat -> str) (g : fgg) (c : nat),
     f_domains g' = f_domains g /\
     Forall2 (fun kf kf' => fst kf' = fst kf /\ factor_same (snd kf) (snd kf')) (f_factors g) (f_factors g').
 Proof.
-  intros dec g c Hwf Hused Hfac.
+  intros dec g c Hwf Hfac.
   destruct (roundtrip_iso dec (f_hrg g) c Hwf) as [jg [h [Hj [Hh Hiso]]]].
   destruct (wf_hrg_facts _ Hwf) as [Hnd [Hstart [Hnt [Hkeys [Hok Hrules]]]]].
   pose proof Hiso as [Hs [[_ [HndT HT]] HR]].
@@ -459,48 +378,42 @@ Proof.
     destruct (wf_rule_facts _ _ Hrules) as [Hlhs [_ [_ [_ [_ [_ Hedges]]]]]].
     destruct Hl as [<-|Hl]; [assumption|]. apply in_map_iff in Hl as [e [<- He]].
     rewrite Forall_forall in Hedges. now destruct (Hedges e He). }
-  destruct (from_hrg_spec h (h_labels h) HndT) as [tbl' [Hfrom [Hndt' Htbl']]]; try assumption.
-  { apply HT. now rewrite <- Hs. }
-  (* the new table has exactly the labels of g *)
-  assert (forall x, In x tbl' <-> In x (h_labels (f_hrg g))) as Hsame.
-  { intro x. rewrite Htbl'. split.
-    - intros [->|[r' [Hr' Hl]]]; [rewrite <- Hs; assumption|]. apply HT. eapply Hocc; eassumption.
-    - intro Hx. unfold labels_used in Hused. rewrite forallb_forall in Hused.
-      specialize (Hused x Hx). apply label_used_spec in Hused. destruct Hused as [->|[r [Hr Hl]]]; [left; exact Hs|].
-      right. destruct (Forall2_in_l _ _ _ _ Hall Hr) as [r' [Hr' Hri]]. exists r'. split; [assumption|].
-      now apply (rule_iso_labels _ _ Hri). }
-  assert (Forall (factor_wf tbl' (f_domains g)) (f_factors g)) as Hfac'.
+  pose proof (from_hrg_spec h HndT Hocc Hkeys' Hok') as Hfrom.
+  assert (Forall (factor_wf (h_labels h) (f_domains g)) (f_factors g)) as Hfac'.
   { eapply Forall_impl; [|exact Hfac]. intros kf [el [ds [Hl [Ht [Hd Hok2]]]]]. exists el, ds. repeat split; try assumption.
-    apply lab_get_some in Hl as [Hin Hname]. rewrite <- Hname. apply lab_get_in; [exact Hndt'|now apply Hsame]. }
-  destruct (factors_roundtrip tbl' (f_domains g) (f_factors g) [] Hfac') as [jfs [fs' [Hjf [Hfs Hsamef]]]].
+    apply lab_get_some in Hl as [Hin Hname]. rewrite <- Hname. apply lab_get_in; [exact HndT|now apply HT]. }
+  destruct (factors_roundtrip (h_labels h) (f_domains g) (f_factors g) [] Hfac') as [jfs [fs' [Hjf [Hfs Hsamef]]]].
   exists (JDict [(k_grammar, jg);
                  (k_interpretation, JDict [(k_domains, JDict (map jdom (f_domains g))); (k_factors, JDict jfs)])]),
-         (mkFGG (mkHRG tbl' (h_start h) (h_rules h)) (f_domains g) fs').
+         (mkFGG h (f_domains g) fs').
   split; [|split; [|split; [|split]]].
   - unfold fgg_to_json_model. rewrite Hj. cbn [bind]. fold jfac. rewrite Hjf. reflexivity.
-  - rewrite json_to_fgg_step, Hh. cbn [bind]. rewrite Hfrom. cbn [bind h_labels].
+  - rewrite json_to_fgg_step, Hh. cbn [bind]. rewrite Hfrom. cbn [bind].
     rewrite json_to_domains_roundtrip. cbn [bind app]. rewrite Hfs. reflexivity.
-  - cbn [f_hrg]. split; [exact Hs|]. split; [|exact HR].
-    split; [exact Hnd|]. split; [exact Hndt'|]. intro l. symmetry. apply Hsame.
+  - exact Hiso.
   - reflexivity.
   - exact Hsamef.
 Qed.
 
 (** the hypotheses are satisfiable: S -> (n : N) with t(n), N a range domain of size 2, t a finite
-    factor stored with a sum axis (second cell unbacked: default) *)
+    factor stored with a sum axis (second cell unbacked: default), and a second terminal u that
+    occurs in no rule but has a (constant) factor -- the situation of the former defect F20 *)
 Definition ex_S : elabel := mkEL [83] [] false.
 Definition ex_t : elabel := mkEL [116] [[78]] true.
+Definition ex_u : elabel := mkEL [117] [[78]; [78]] true.
 Definition ex_n : node := mkNode [78] (Implicit 4).
 Definition ex_fgg : fgg :=
-  mkFGG (mkHRG [ex_S; ex_t] ex_S [(ex_S, [mkRule ex_S (mkGraph [ex_n] [mkEdge ex_t [ex_n] (Implicit 5)] [])])])
+  mkFGG (mkHRG [ex_S; ex_t; ex_u] ex_S [(ex_S, [mkRule ex_S (mkGraph [ex_n] [mkEdge ex_t [ex_n] (Implicit 5)] [])])])
         [([78], DRange 2)]
-        [([116], FFinite (mkPT (TL [TS (NFin 3%Q)]) 0 [1] [ASum 0 (APhys 0 1) 1] NPInf))].
+        [([116], FFinite (mkPT (TL [TS (NFin 3%Q)]) 0 [1] [ASum 0 (APhys 0 1) 1] NPInf));
+         ([117], FConstant (JNum NPInf))].
 
 Example fgg_roundtrip_ex :
-  wf_hrg (f_hrg ex_fgg) = true /\ labels_used (f_hrg ex_fgg) = true /\
+  wf_hrg (f_hrg ex_fgg) = true /\
   Forall (factor_wf (h_labels (f_hrg ex_fgg)) (f_domains ex_fgg)) (f_factors ex_fgg).
 Proof.
-  split; [reflexivity|]. split; [reflexivity|]. constructor; [|constructor].
-  exists ex_t, [DRange 2]. split; [reflexivity|]. split; [reflexivity|]. split; [reflexivity|].
-  split; [eexists; vm_compute; reflexivity|]. split; [reflexivity|]. repeat constructor.
+  split; [reflexivity|]. constructor; [|constructor; [|constructor]].
+  - exists ex_t, [DRange 2]. split; [reflexivity|]. split; [reflexivity|]. split; [reflexivity|].
+    split; [eexists; vm_compute; reflexivity|]. split; [reflexivity|]. repeat constructor.
+  - exists ex_u, [DRange 2; DRange 2]. split; [reflexivity|]. split; [reflexivity|]. split; [reflexivity|]. exact I.
 Qed.
